@@ -23,6 +23,10 @@ CHECKS = {
    technique="bounded-exhaustive enumeration of annotation-kind subsets x counts x sheet layouts x sheet operations and of text channels x special strings; oracle = pre-save annotation dump equals post-reload dump keyed by cell",
    text="Each of 19 annotation kinds alone, every pair of kinds at every count combination {1,2,12}, all kinds at once, on 1- and 3-sheet workbooks, with sheet removal/rename/active-tab operations before save, plus every annotation text channel x 12 special strings; the annotation dump keyed by cell/range must be identical after reload.",
    note="Trusted: public getters. Defined names are compared by scope (global / sheet), not by the object that happens to hold them."),
+ "C10": dict(level="model_checking", engine="E2", design="3 C10",
+   technique="explicit-state breadth-first exploration of operation histories on the real Worksheet (cloned per node) with a brute-force scan oracle evaluated in every state, incl. save emission",
+   text="BFS over a 47-operation alphabet (set/remove cell, styles by cell/range, insert/remove rows and columns, move/copy range, cleanup, copy row/column styling) from 4 seeded states to depth 3 (quick) / depth 4 full + depth 6 on a 12-op alphabet (thorough); in every reached state every lookup/iterator/index/dimension API is compared with a brute-force scan of the cell map, and the sheet is written and the emitted <c> set compared with the non-default cells.",
+   note="Trusted: get_collection_to_hashmap() key set as the ground truth of 'existing cells'; the harness's sheet-XML scanner. Panicking operations yield no successor but the post-unwind object is still checked."),
  "C16": dict(level="model_checking", engine="E3", design="3 C16, 9.2",
    technique="stateless model checking of real threads: cooperative scheduler at hook points, DFS over schedules with iterative preemption bounding (complete for 2 savers)",
    text="Real OS threads run the real write_writer on shared/cloned workbooks; a hook before every shared-string-table lock operation parks the thread, the explorer owns the run token and enumerates ALL interleavings of 2 savers and all interleavings with <=2 (quick) / <=3 (thorough) preemptions of 3 savers; every saver's output of every schedule is reloaded and compared with its own workbook; deadlocks surface through a 20 s quiescence horizon, panics are verdicts; schedules are replayable and replay divergence is a machinery error.",
@@ -33,6 +37,7 @@ CHECKS = {
    note="Trusted: the harness's 10-line bijective base-26 numeral and its quoted-address parser. Sheet names beyond 3 atoms only via five 31-character boundary names."),
 }
 ENGINES=[
+ {"name":"E2","path":"harness/src/e2.rs","serves_properties":["C04","C07","C08","C10","C11","C12"],"kind_free_text":"explicit-state breadth-first explorer over real library objects cloned per node, lock-step reference model / invariant per transition, run inside pool cases (hang/crash attribution)"},
  {"name":"E3","path":"harness/src/c16.rs","serves_properties":["C16"],"kind_free_text":"cooperative scheduler over real threads (hook H1 in /repo, cfg umya_verif), DFS over choice sequences, preemption bounding, replay with divergence detection"},
  {"name":"P","path":"pyref/xlsx_ref.py","serves_properties":["C02","C03","C05","C11"],"kind_free_text":"independent OPC/SpreadsheetML validator + decoder, Python stdlib only"},
  {"name":"E1","path":"harness/src/pool.rs","serves_properties":[k for k,v in CHECKS.items() if v["engine"].startswith("E1")],"kind_free_text":"bounded-exhaustive input enumerator: deterministic indexed case spaces sharded over worker processes with per-case watchdog (hang/crash attribution)"},
